@@ -345,5 +345,14 @@ func genC20(rng *hx.Rng, tier string, w *hx.Writer) error {
 				Tags: []string{"response", tag, "nt"}})
 		}
 	}
+	// the curve arithmetic behind the signatures (ge.go / fe.go), through point objects with histories
+	// (props/pointmachine.go): sums into used objects, multiples of earlier results, clones, decoded
+	// points, and calls that only look - every register must encode like its logarithm's multiple of
+	// the base point computed afresh
+	nProg := 60
+	if tier == "thorough" {
+		nProg = 1500
+	}
+	genPointMachine(rng, w, Ed, GrpEd, "Ed25519", EdL, nProg, "point-arithmetic", 0)
 	return nil
 }
